@@ -28,7 +28,7 @@ type PathResult struct {
 	NDec      int               `json:"ndec"`
 	Symbolic  bool              `json:"symbolic"`
 	Threads   int               `json:"threads,omitempty"`
-	Sched     []int             `json:"-"`
+	Sched     []int             `json:"sched,omitempty"`
 	Chooses   []int             `json:"chooses,omitempty"`
 }
 
@@ -147,6 +147,9 @@ func (in *Interp) finishResult(res *PathResult) {
 	}
 	res.NDec = len(in.dec)
 	res.Chooses = append([]int(nil), in.chooses...)
+	if len(in.threads) > 1 {
+		res.Sched = append([]int(nil), in.schedTrace...)
+	}
 	res.Steps = in.nsteps
 	res.Notes = append(res.Notes, in.pathNotes...)
 	res.Symbolic = len(in.pcList) > 0
